@@ -157,9 +157,13 @@ def _comb_defs():
             isinstance(s_, ast.Expr) and isinstance(s_.value, ast.Call) and ast.unparse(s_.value.func) in ("warnings.warn", "warn") for s_ in body[0].body):
         body = body[1:]
     src = [ast.unparse(x) for x in body]
-    if not (len(body) == 5 and src[0] == "c = []" and src[2] == "j = -1" and src[4] == "return c" and isinstance(body[1], ast.Assign)
-            and ast.unparse(body[1].targets[0]) == "r" and isinstance(body[3], ast.For)):
-        raise Untranslatable("body is not `c = []; r = ..; j = -1; for ..; return c`: %s" % [x.split(chr(10))[0] for x in src])
+    inits = {ast.unparse(x.targets[0]): x for x in body[:3] if isinstance(x, ast.Assign) and len(x.targets) == 1}
+    # the three initialisations are independent of one another (checked: `r`'s right-hand side mentions neither c nor j): any order
+    if not (len(body) == 5 and set(inits) == {"c", "r", "j"} and ast.unparse(inits["c"].value) == "[]" and ast.unparse(inits["j"].value) == "-1"
+            and not ({n.id for n in ast.walk(inits["r"].value) if isinstance(n, ast.Name)} & {"c", "j"})
+            and src[4] == "return c" and isinstance(body[3], ast.For)):
+        raise Untranslatable("body is not `c = []; r = ..; j = -1` (any order) `; for ..; return c`: %s" % [x.split(chr(10))[0] for x in src])
+    body = [inits["c"], inits["r"], inits["j"], body[3], body[4]]
     loop = body[3]
     if not (isinstance(loop.target, ast.Name) and loop.target.id == "s" and not loop.orelse and len(loop.body) == 4):
         raise Untranslatable("outer loop shape")
